@@ -14,7 +14,8 @@ EXPLANATION = (
     "dist_in_2r and too_far measure the centre distance between the two boxes against the sum of both bounding radii; "
     "(R20.6) who-may-write: the constraint table is mutated only by add_constraints (and helpers private to it), the "
     "builder hands its whole input to it."
-    ' (R20.7) the batch trackers judge admission on the state the merge lands on: predict waits for the previous batch before advancing epochs and querying distances (monitor protocol shared with C06).')
+    ' (R20.7) the batch trackers judge admission on the state the merge lands on: predict waits for the previous batch before advancing epochs and querying distances (monitor protocol shared with C06).'
+    ' (R20.8) the regulariser of dist_in_2r is the public constant EPS = 1e-5; (R20.9) the epoch gap counts every predict call of the scene, empty frames included.')
 NOT_DECIDED = ["tracker-level equivalence with/without non-binding constraints (two-run comparison)",
                "numeric value of the centre distance"]
 ASSUMPTIONS = ["std sort_by is stable and dedup_by keeps the first of equal runs", "rustc nightly MIR construction"]
